@@ -265,3 +265,7 @@ func ReplayMain(table map[string]func()) {
 	fmt.Printf("VERIF-REPLAY-REACHED %v\n", Reached)
 	fmt.Printf("VERIF-REPLAY-OUTCOME %s\n", out)
 }
+
+// AllowTagsInFresh lifts the default modelling assumption that opaque crypto outputs (ciphertexts, wrapped keys,
+// generated keys) contain no envelope tag sequence (three '%' or four '"' in a row). No-op natively.
+func AllowTagsInFresh() {}
